@@ -2,6 +2,7 @@ package streamflow
 
 import (
 	"fmt"
+	"sort"
 
 	"github.com/rs/zerolog/log"
 )
@@ -98,27 +99,34 @@ func validateUnconnectedProcessors(flow *FlowDirection) error {
 }
 
 // detectCircularConnections detects circular connections in the flow graph.
+// The search starts from the connections of every processor of the direction, not only from
+// those of the root: a walk can also enter the graph behind the root (the response direction
+// continues from the connections of the processor that answered the request, and may have no
+// root at all), so a cycle anywhere in the direction would recurse without end at request time.
 func detectCircularConnections(flowDir *FlowDirection) error {
-	if flowDir.GetFlowType().IsResponseType() && !flowDir.HasValidRoot() {
-		return nil
+	processorKeys := make([]string, 0, len(flowDir.nodes))
+	for processorKey := range flowDir.nodes {
+		processorKeys = append(processorKeys, processorKey)
 	}
+	sort.Strings(processorKeys) // deterministic error message
 
-	rootEdges := flowDir.root.node.edges
-	for _, connection := range rootEdges {
-		if connection.node == nil {
-			continue
+	for _, processorKey := range processorKeys {
+		for _, connection := range flowDir.nodes[processorKey].edges {
+			if connection.node == nil {
+				continue
+			}
+			log.Trace().
+				Str("flowGraphName", connection.node.flowGraphName).
+				Msgf("Validating no circular connections for processor %s", connection.node.processorKey)
+			visitedByCondition := make(
+				map[string]map[string]bool,
+			) // key - condition, value - processorKey
+			proc := connection.node.processorKey
+			if !dfsDetectCycles(connection.node, visitedByCondition, proc, connection.condition) {
+				return fmt.Errorf("circular connection detected - processor '%s'", proc)
+			}
+			log.Trace().Msgf("No cycle detected for processor %s", proc)
 		}
-		log.Trace().
-			Str("flowGraphName", connection.node.flowGraphName).
-			Msgf("Validating no circular connections for processor %s", connection.node.processorKey)
-		visitedByCondition := make(
-			map[string]map[string]bool,
-		) // key - condition, value - processorKey
-		proc := connection.node.processorKey
-		if !dfsDetectCycles(connection.node, visitedByCondition, proc, connection.condition) {
-			return fmt.Errorf("circular connection detected - processor '%s'", proc)
-		}
-		log.Trace().Msgf("No cycle detected for processor %s", proc)
 	}
 
 	return nil
